@@ -193,16 +193,30 @@ class Run:
                 st = "proved"
             out[nm] = dict(status=st, jobs=len(rs), seconds=sum(r["seconds"] for r in rs),
                            backends=sorted({r["backend"] for r in rs}),
-                           worst=[r for r in rs if r["status"] in ("refuted", "unknown", "error")][:3])
+                           worst=[r for r in rs if r["status"] in ("refuted", "unknown", "error")][:8])
         return out
 
 
 def replay_refuted(run, name, info, args_by_label):
+    """replay the failing paths of one obligation (up to 8) until one counter-model is confirmed on the real
+    code; the first path's report is kept when none confirms"""
+    first = None
+    for n_try, worst in enumerate(info["worst"]):
+        rep = _replay_one(run, name, worst)
+        rep["paths_tried"] = n_try + 1
+        if first is None:
+            first = rep
+        if rep.get("confirmed_on_real_code"):
+            return rep
+    first["paths_tried"] = len(info["worst"])
+    return first
+
+
+def _replay_one(run, name, worst):
     """re-solve in process to get a model, concretise the inputs of the
     function under contract and replay on the real code under /venv python"""
     target = None
     obl = None
-    worst = info["worst"][0]
     for o in run.obls:
         if o.name == name and o.path_id == worst.get("path"):
             obl = o
